@@ -119,7 +119,8 @@ def build_call(case):
     if case.get("by_chunks") is not None:
         import dask.array as da
 
-        bys = [da.from_array(b, chunks=tuple(tuple(c) for c in ch)) for b, ch in zip(bys, case["by_chunks"])]
+        # an entry None keeps that grouper in memory (mixed numpy / dask groupers)
+        bys = [da.from_array(b, chunks=tuple(tuple(c) for c in ch)) if ch is not None else b for b, ch in zip(bys, case["by_chunks"])]
     kw = {"func": case["func"]}
     if case.get("custom_agg"):
         from .custom_aggs import make
